@@ -7,6 +7,7 @@
 
 from .language import *
 from pyModelChecking.kripke import Kripke
+from pyModelChecking.PL.language import get_atomic_proposition_names
 
 from .parser import Parser
 
@@ -112,7 +113,8 @@ def modelcheck(kripke, formula, parser=None, F=None):
         kripkeC = kripke.clone()
 
         if F is not None:
-            fair_label = kripkeC.label_fair_states(F)
+            avoid = get_atomic_proposition_names(formula)
+            fair_label = kripkeC.label_fair_states(F, avoid)
 
             CTL_frml = _remove_state_subformulas(kripkeC, formula,
                                                  fair_label)
